@@ -108,8 +108,10 @@ class CountHooks(flow.Hooks):
         return ("in", frozenset(s))
 
 
-def count_effects(fn, pdb, classify, retsets=None, init=None, cap=None, pinned=None, oracle=None, cell=None, values=None):
+def count_effects(fn, pdb, classify, retsets=None, init=None, cap=None, pinned=None, oracle=None, cell=None, values=None, start_block=None):
     h = CountHooks(fn, pdb, classify, retsets, init, cap, pinned, oracle, cell, values)
+    if start_block is not None:
+        h.start_block = start_block
     fl = flow.Flow(fn, h)
     fl.run()
     outs = []
